@@ -396,8 +396,10 @@ fn convert_job(ctx: &Ctx, job: usize, jobs: usize, thorough: bool) -> Stats {
     let mut rng = Rng::stream(ctx.seed, "C18.convert", job as u64);
     // name families: plain; one name a prefix of another followed by a character below '_' (digit,
     // upper case, '-'); names containing the colour suffix pattern
-    let name_sets: [[&str; 5]; 7] = [
+    let name_sets: [[&str; 5]; 8] = [
         ["a", "b", "c", "d", "e"],
+        // names a CSV reader may take for a comment or a header
+        ["#1", "#a", "a#", "source", "c#d"],
         ["v1", "v10", "v1X", "v", "v100"],
         ["1", "10", "100", "2", "20"],
         ["a_c0", "a", "a_c1", "a_c", "c0"],
